@@ -178,7 +178,7 @@ def api_text(case):
         dlang.set_global_language_to('en')
 
 
-MODEL_FORMATS = ('auto', 'auto_extended', 'conll', 'ptb', 'deriv', 'ja', 'prolog')
+MODEL_FORMATS = ('auto', 'auto_extended', 'conll', 'ptb', 'deriv', 'ja', 'prolog', 'json')
 
 
 def model_line(case):
